@@ -78,7 +78,7 @@ class Increments(Machine):
                        "chunk_larger_than_all_before", "pca_centred", "pca_uncentred", "gmrf_sparse", "gmrf_dense",
                        "gmrf_subtraction", "gmrf_concatenation", "gmrf_bias1", "rejected_increment",
                        "graph_edgeless", "graph_chain", "graph_cycle", "graph_tree", "graph_directed",
-                       "object_backed", "malformed_increment_refused")
+                       "object_backed", "malformed_increment_refused", "active_count_lowered_between_increments")
 
     @classmethod
     def _cfg(cls, rng):
@@ -113,6 +113,8 @@ class Increments(Machine):
             s = rng.choice([1, 1, 2, 3, 4, 5, 7, 11])
         if cfg["family"].startswith("pca") and rng.random() < 0.12:
             return {"op": "bad_inc", "size": max(1, s % 4), "extra": rng.choice([1, 2])}
+        if cfg["family"].startswith("pca") and rng.random() < 0.12:
+            return {"op": "lower_active", "size": rng.randrange(1, 5)}
         return {"op": "inc", "size": s}
 
     @classmethod
@@ -231,6 +233,17 @@ class Increments(Machine):
 
     def step(self, op):
         ctx = self.ctx
+        if op["op"] == "lower_active":
+            # de-activating components (NOT trimming) discards nothing: later increments must still equal the batch
+            if self.fam.startswith("pca"):
+                try:
+                    k = int(self.model.n_components)
+                    self.low = max(1, k - op["size"])
+                    self.model.n_active_components = self.low
+                    ctx.probe("active_count_lowered_between_increments")
+                except Exception as ex:
+                    ctx.fail("increment", "lowering_active_components_raised", repr(ex))
+            return
         if op["op"] == "bad_inc":
             if self.fam.startswith("pca"):
                 self._bad_increment(op)
@@ -275,6 +288,25 @@ class Increments(Machine):
         ctx.state(self.fam, tuple(sorted((k, str(v)) for k, v in c.items() if k not in ("steps", "style", "seed", "kind"))), tuple(self.comp))
 
     def _compare_pca(self):
+        ctx = self.ctx
+        m = self.model
+        low = getattr(self, "low", None)
+        if low is not None:
+            try:
+                m.n_active_components = int(m.n_components)     # look at everything the model kept
+            except Exception as ex:
+                ctx.fail("increment", "reactivating_components_raised", repr(ex))
+                return
+        try:
+            self._compare_pca_all_active()
+        finally:
+            if low is not None:
+                try:
+                    m.n_active_components = max(1, min(low, int(m.n_components)))
+                except Exception:
+                    pass
+
+    def _compare_pca_all_active(self):
         ctx = self.ctx
         m = self.model
         rows = self.X[:self.pos]
